@@ -169,7 +169,7 @@ func runTScenario(t *testing.T, raw []byte) (lines []M, problem string) {
 					"lr": resName(exec.LastResult()), "le": projectErrT(le), "hedge": exec.IsHedge(), "canceled": canc})
 				rec.mu.Unlock()
 				f := sc.FnDefault
-				if x-1 < len(sc.Fns) && k <= len(sc.Fns[x-1]) {
+				if x >= 1 && x-1 < len(sc.Fns) && k <= len(sc.Fns[x-1]) { // (x = 0: an invocation under a context that is not the execution's own)
 					f = sc.Fns[x-1][k-1]
 				}
 				d := time.Duration(f.D) * unit
